@@ -36,6 +36,7 @@ type staticCase struct {
 	Logging    bool   `json:"enable_logging,omitempty"`
 	Query      string `json:"raw_query,omitempty"`                                // the request also carries a query string (irrelevant to what is served or where a directory is redirected to)
 	IOFS       bool   `json:"filesystem_is_an_io_fs,omitempty"`                   // FileSystem is http.FS(os.DirFS(dir)) instead of http.Dir(dir): names with empty, "." or ".." elements are not valid there and cannot be opened
+	ReqHdr     string `json:"negotiation_header,omitempty"`                       // one "Name: value" line of content negotiation the client sends (Accept-Encoding, Accept, Accept-Language ...): which file is served does not depend on it
 	DirName    string `json:"directory_spelled,omitempty"`                        // Directory is this name under the fixture root (another name of the served tree, relative to the working directory for even request counts): a directory name is a name, whatever characters it contains
 	DefaultDir bool   `json:"directory_option_unset,omitempty"`                   // neither Directory nor FileSystem given: the documented default "public" (relative to the working directory, which is the fixture root) is served
 	Spread     bool   `json:"options_passed_as_slice_then_overwritten,omitempty"` // Static(slice...) and the caller reuses the slice afterwards: the middleware keeps the options it was created with
@@ -90,7 +91,10 @@ type fixture struct {
 
 var fixtureInside = []string{"pub/x", "pub/s/one", "pub/a.txt", "pub/dir/index.html", "pub/dir/b", "pub/index.html", "pub/sp ace", "pub/..x", "pub/idx2/home.htm", "pub/deep/d2/index.html", "pub/static/a.txt", "pub/s/t/u.txt",
 	// directories that hold no index file, only files whose names resemble one
-	"pub/legacy/index.htm", "pub/legacy/index.html.bak", "pub/legacy/default.html", "pub/legacy/INDEX.HTML", "pub/legacy/index", "pub/legacy/index.php", "pub/legacy/_index.html", "pub/diridx/index.htm", "pub/diridx/default.htm"}
+	"pub/legacy/index.htm", "pub/legacy/index.html.bak", "pub/legacy/default.html", "pub/legacy/INDEX.HTML", "pub/legacy/index", "pub/legacy/index.php", "pub/legacy/_index.html", "pub/diridx/index.htm", "pub/diridx/default.htm",
+	// siblings whose names are a served name plus a suffix (pre-compressed copies, editor backups): files of their own;
+	// nobody asked for them. app.js itself does not exist, docs is a directory without index
+	"pub/a.txt.gz", "pub/a.txt.br", "pub/a.txt~", "pub/app.js.gz", "pub/app.js.br", "pub/docs.gz", "pub/docs/readme", "pub/dir.gz", "pub/index.html.gz", "pub/dir/index.html.gz", "pub/dir/b.gz", "pub/noidx.gz"}
 var fixtureOutside = []string{"secret.txt", "pubx/leak", "pub2/a.txt", "index.html", "a.txt"}
 
 // c16DirNames: further names of the served tree. Nothing in a directory name is a variable, a pattern or an escape.
@@ -404,7 +408,7 @@ func insideContent(fx *fixture, body string) bool {
 	return false
 }
 
-var staticSegs = []string{"a.txt", "dir", "b", "noidx", "index.html", "..", "..", ".", "", "sp ace", "..x", "secret.txt", "pubx", "leak", "static", "staticfoo", "static..", "pub", "deep", "d2", "diridx", "idx2", "home.htm", "a.txt\x00", "%2e%2e", "pub2", "s", "t", "u.txt", "..\\secret.txt", "...", "a.txt/", "legacy", "index.htm"}
+var staticSegs = []string{"a.txt", "dir", "b", "noidx", "index.html", "..", "..", ".", "", "sp ace", "..x", "secret.txt", "pubx", "leak", "static", "staticfoo", "static..", "pub", "deep", "d2", "diridx", "idx2", "home.htm", "a.txt\x00", "%2e%2e", "pub2", "s", "t", "u.txt", "..\\secret.txt", "...", "a.txt/", "legacy", "index.htm", "app.js", "docs", "a.txt.gz", "readme"}
 var staticPrefixes = []string{"", "static", "/static", "static/", "/static/", "/", "s/t", "//static//", ".well-known", "/.s/", "..data"}
 
 func genStaticCase(rng *rand.Rand) *staticCase {
@@ -419,6 +423,7 @@ func genStaticCase(rng *rand.Rand) *staticCase {
 		CustomFS:   rng.Intn(4) == 0,
 		Method:     "GET",
 		DefaultDir: rng.Intn(5) == 0,
+		ReqHdr:     []string{"", "", "", "Accept-Encoding: gzip", "Accept-Encoding: gzip, deflate, br", "Accept-Encoding: br", "Accept-Encoding: *", "Accept: text/html", "Accept: application/json", "Accept-Language: de", "TE: gzip", "Accept-Encoding: identity;q=0, gzip"}[rng.Intn(12)],
 		DirName:    append([]string{"", "", "", ""}, c16DirNames...)[rng.Intn(4+len(c16DirNames))],
 		Spread:     rng.Intn(6) == 0,
 	}
@@ -456,7 +461,7 @@ func genStaticCase(rng *rand.Rand) *staticCase {
 	p := sb.String()
 	if rng.Intn(10) < 4 {
 		// fixture-directed: an existing inside file or directory under the right prefix, lightly disguised
-		rel := []string{"a.txt", "dir/index.html", "dir/b", "dir", "dir/", "", "index.html", "sp ace", "..x", "idx2", "idx2/", "idx2/home.htm", "deep/d2", "deep/d2/", "static/a.txt", "s/t/u.txt", "noidx/", "diridx/", "deep", "empty.txt", "big.bin", "legacy/", "legacy", "legacy/index.htm"}[rng.Intn(24)]
+		rel := []string{"a.txt", "dir/index.html", "dir/b", "dir", "dir/", "", "index.html", "sp ace", "..x", "idx2", "idx2/", "idx2/home.htm", "deep/d2", "deep/d2/", "static/a.txt", "s/t/u.txt", "noidx/", "diridx/", "deep", "empty.txt", "big.bin", "legacy/", "legacy", "legacy/index.htm", "app.js", "docs", "docs/", "a.txt.gz", "dir/b", "noidx"}[rng.Intn(30)]
 		switch rng.Intn(8) {
 		case 0:
 			rel = "./" + rel
@@ -545,6 +550,10 @@ func judgeStatic(w *core.W, fx *fixture, c *staticCase, classes func(string)) {
 	}
 	want := staticOracle(fx, c)
 	hdr := http.Header{}
+	if k, v, ok := strings.Cut(c.ReqHdr, ": "); ok {
+		hdr.Set(k, v)
+		w.Count("requests-with-a-negotiation-header")
+	}
 	if c.INM == "formula" {
 		// the tag the middleware's formula gives for what the path denotes (size, base name, modification time)
 		tag := `"nothing-there"`
@@ -884,7 +893,7 @@ func runC16(r *core.Run) {
 	for _, k := range []string{"volatile:removed", "volatile:becomes-directory", "volatile:rewritten", "volatile:root-relinked"} {
 		r.GateCounter(k, 100)
 	}
-	for _, k := range []string{"class:traversal-in", "class:traversal-out", "class:look-alike", "class:dir-no-slash", "class:dir-slash", "class:dir-no-index-or-missing", "class:file", "class:missing", "class:NUL", "class:other-method", "outcome:file", "outcome:redirect", "outcome:not-modified", "outcome:silent", "fault:open", "fault:stat", "fault:index-open", "fault:index-stat", "directory-option-unset", "directory-name-with-odd-characters", "options-slice-overwritten-after-creation", "filesystem:io/fs", "if-none-match:formula-tag-of-a-directory"} {
+	for _, k := range []string{"class:traversal-in", "class:traversal-out", "class:look-alike", "class:dir-no-slash", "class:dir-slash", "class:dir-no-index-or-missing", "class:file", "class:missing", "class:NUL", "class:other-method", "outcome:file", "outcome:redirect", "outcome:not-modified", "outcome:silent", "fault:open", "fault:stat", "fault:index-open", "fault:index-stat", "directory-option-unset", "directory-name-with-odd-characters", "requests-with-a-negotiation-header", "options-slice-overwritten-after-creation", "filesystem:io/fs", "if-none-match:formula-tag-of-a-directory"} {
 		r.GateCounter(k, 30)
 	}
 	r.Gate("distinct_nontrivial", r.NonTrivialCount(), 5000)
